@@ -638,6 +638,12 @@ func cmdCheck(prop string, args []string) {
 			sn.Name, a.runs, a.steps, float64(a.simNS)/1e9, len(a.fps), len(a.fpsNontrivial))
 	}
 
+	// ---- data-race pass (thorough tier of properties that ask for it) ----
+	var raceReports []string
+	if spec.RaceScenario != "" && *tier == "thorough" {
+		raceReports = racePass(spec.RaceScenario, *seed, total)
+	}
+
 	// ---- classify ----
 	otherProps := map[string]int{}
 	artefacts := 0
@@ -735,6 +741,16 @@ func cmdCheck(prop string, args []string) {
 		os.WriteFile(path, b, 0o644)
 		fmt.Printf("VIOLATION property=%s replay=%s\n", g.prop, path)
 		fmt.Printf("  signature: %s (%d run(s)); replay stability %s; tape %d values (from %d)\n  %s\n", g.sig, len(g.ex), final.ReplaysOK, len(final.Tape), final.ShrunkFrom, firstLine(final.Violation.Message))
+	}
+	for i, rep := range raceReports {
+		nviol++
+		exit = 1
+		path := filepath.Join(verifDir, "replays", fmt.Sprintf("%s-data-race-%d-%d.txt", prop, *seed, i))
+		os.WriteFile(path, []byte(rep), 0o644)
+		fmt.Printf("VIOLATION property=%s replay=%s\n  signature: %s/data-race (race detector report of a real execution at GOMAXPROCS=4: not replayable)\n  %s\n", prop, path, prop, firstLine(strings.TrimSpace(strings.SplitN(rep, "\n", 3)[1])))
+		if i >= 2 {
+			break
+		}
 	}
 	for k, n := range otherProps {
 		fmt.Printf("vcheck: note: %d run(s) hit a violation of another property (%s); its own check reports it\n", n, k)
@@ -910,4 +926,51 @@ func cmdReplay(args []string) {
 	}
 	fmt.Printf("NOT-REPRODUCED replay=%s (recorded %q, this run %q)\n", args[0], want, got)
 	os.Exit(0)
+}
+
+// racePass rebuilds the simulation binary with the race detector and runs the scenario
+// with GOMAXPROCS=4 (real parallelism inside each bubble). A report that involves driver
+// code is a violation of "without data races"; these are real executions, not replayable.
+func racePass(scenario string, seed int64, total *agg) []string {
+	bin := filepath.Join(workDir, "simrace.test")
+	cmd := exec.Command(goBin, "test", "-c", "-race", "-tags", "verif", "-o", bin, "./simtest")
+	cmd.Dir = filepath.Join(verifDir, "sim")
+	env := os.Environ()
+	env = append(env, "GOFLAGS=-mod=mod", "GOPROXY=off", "GOSUMDB=off", "GOTOOLCHAIN=local", "CGO_ENABLED=1")
+	cmd.Env = env
+	if out, err := cmd.CombinedOutput(); err != nil {
+		fmt.Fprintf(os.Stderr, "vcheck: race build failed, race pass skipped:\n%s\n", lastLines(string(out), 10))
+		return nil
+	}
+	budget := time.Duration(envInt("VERIF_RACE_S", 120)) * time.Second
+	var mu sync.Mutex
+	var reports []string
+	runs := 0
+	var wg sync.WaitGroup
+	for w := 0; w < 4; w++ {
+		wg.Add(1)
+		go func(w int) {
+			defer wg.Done()
+			c := exec.Command(bin, "-test.run", "^TestSim$", "-test.timeout", "0", "-sim.scenario="+scenario,
+				"-sim.seed="+strconv.FormatInt(seed+int64(1000+w), 10), "-sim.count=1000000", "-sim.budget="+budget.String(), "-sim.memlimit=0")
+			c.Env = append(os.Environ(), "GOMAXPROCS=4", "GORACE=halt_on_error=0")
+			var stdout, stderr bytes.Buffer
+			c.Stdout, c.Stderr = &stdout, &stderr
+			c.Run()
+			n := strings.Count(stdout.String(), "\nRES ")
+			mu.Lock()
+			runs += n
+			for _, blk := range strings.Split(stderr.String(), "==================") {
+				if strings.Contains(blk, "WARNING: DATA RACE") && strings.Contains(blk, "github.com/gocql/gocql.") {
+					reports = append(reports, blk)
+				}
+			}
+			mu.Unlock()
+		}(w)
+	}
+	wg.Wait()
+	total.probes["race-pass.runs"] += runs
+	total.probes["race-pass.reports"] += len(reports)
+	fmt.Printf("vcheck: race pass: %d runs of scenario %s under the race detector at GOMAXPROCS=4, %d report(s) involving driver code\n", runs, scenario, len(reports))
+	return reports
 }
